@@ -12,7 +12,7 @@ from lib import refmidi as R
 from lib import refsmf as F
 from lib import strategies as S
 from lib.harness import exc_sig, fail
-from lib.vals import T, dec
+from lib.vals import T, dec, items_of
 
 PID = 'C15'
 LEVEL = 'exploration'
@@ -94,7 +94,8 @@ def check_case(case):
             want_d = dict(d)
             for k, v in ov.items():
                 if k != 'type':
-                    want_d[k] = list(v) if k == 'data' else v
+                    # decode again for the expectation: a generator handed to copy() has been consumed by it
+                    want_d[k] = items_of(ov_enc[k]) if k == 'data' else v
             want = build(want_d, False)
             if seq_list and 'data' not in ov and t == 'sequencer_specific':
                 want = build(want_d, True)
